@@ -14,7 +14,7 @@
     [wf_trials]: see Properties/C16.v. *)
 From Coq Require Import ZArith List Bool Arith.
 From SP Require Import Design.Flat Design.Sem Front.Trials Front.TrialsWf Front.TrialsProofs Front.Create
-  Front.NestProofs Front.NestSem Front.NestSem2.
+  Front.NestProofs Front.NestSem Front.NestSem2 Front.NestSem3.
 Import ListNotations.
 
 (** What Nest(outer, inner, cs) builds: the crossings of both blocks side by side, the
@@ -185,6 +185,57 @@ Example C25_example_groups_derived :
           [[Some 0; Some 0; Some 1; Some 1]; [Some 0; Some 1; Some 1; Some 0]; [Some 0; Some 1; Some 0; Some 1];
            [Some 0; Some 1; Some 1; Some 0]; [Some 0; Some 0; Some 1; Some 1]; [Some 0; Some 1; Some 0; Some 0]] = false.
 Proof. exact ex_nestable_d. Qed.
+
+(** Guard 2, [nestable_c_b] (Front/NestSem3.v): as [nestable_d_b], and
+    - an inner constraint may also be Exclude, or Pin whose pinned trial group lies inside the inner block
+      (the index counts from the start, a negative one from the end, of each group; the outer block then has a trial);
+    - the outer block may carry constraints Exclude / ExactlyK / AtMostKInARow on its crossed factors, with
+      non-empty windows inside the outer block.  In the Nest their windows are multiplied by [Ti], the count of
+      ExactlyK is multiplied by [Ti], the run-length bound of AtMostKInARow is left as it is; clause (d) of
+      [groups_spec2] reads them on the group representatives, AtMostKInARow(k) as AtMostKInARow(k / Ti). *)
+Theorem C25_nest_groups_constraints :
+  forall So Si s,
+    nestable_c_b So Si = true ->
+    (valid_b (nest_sem2 So Si) s = true <-> groups_spec2 So Si s).
+Proof. exact nest_groups_c. Qed.
+Print Assumptions C25_nest_groups_constraints.
+
+Theorem C25_nestable_c_includes :
+  forall So Si, nestable_d_b So Si = true -> nestable_c_b So Si = true.
+Proof. exact nestable_c_includes. Qed.
+Print Assumptions C25_nestable_c_includes.
+
+(** Guard 3, [nestable_f_b]: the outer constraints may also sit on uncrossed (free) outer factors, which are
+    not held fixed: clause (d) reads such a constraint on the whole sequence (windows and ExactlyK count
+    multiplied by [Ti]).  (Free non-derived factors themselves are inside every guard since [nestable_b];
+    derived factors over free factors since [nestable_d_b].) *)
+Theorem C25_nest_groups_free :
+  forall So Si s,
+    nestable_f_b So Si = true ->
+    (valid_b (nest_sem2 So Si) s = true <-> groups_spec2 So Si s).
+Proof. exact nest_groups_f. Qed.
+Print Assumptions C25_nest_groups_free.
+
+Theorem C25_nestable_f_includes :
+  forall So Si, nestable_c_b So Si = true -> nestable_f_b So Si = true.
+Proof. exact nestable_f_includes. Qed.
+Print Assumptions C25_nestable_f_includes.
+
+(** outer: 4 trials of A (each level twice) with AtMostKInARow(2, a0) and ExactlyK(2, a0); inner: 2 trials of B
+    with Pin(-1, b1).  The run-length bound is not rescaled: one group already is a run of 2 trials, so a0 may
+    not be held for two groups in a row (3 of the 6 outer orders remain). *)
+Example C25_example_groups_constraints :
+  nestable_d_b ex_outer_c ex_inner_c = false /\ nestable_c_b ex_outer_c ex_inner_c = true /\
+  s_constraints (nest_sem2 ex_outer_c ex_inner_c)
+  = [{| k_kind := Sem.KAtMost 2; k_factor := 0; k_level := 0; k_windows := [(0, 8)] |};
+     {| k_kind := Sem.KExactlyK 4; k_factor := 0; k_level := 0; k_windows := [(0, 8)] |};
+     {| k_kind := Sem.KPin (-1) 1; k_factor := 1; k_level := 1; k_windows := [(0, 2); (2, 4); (4, 6); (6, 8)] |}] /\
+  map (reps_constraint 2) (s_constraints ex_outer_c)
+  = [{| k_kind := Sem.KAtMost 1; k_factor := 0; k_level := 0; k_windows := [(0, 4)] |};
+     {| k_kind := Sem.KExactlyK 2; k_factor := 0; k_level := 0; k_windows := [(0, 4)] |}] /\
+  length (all_valid ex_outer_c) = 6 /\ length (all_valid ex_inner_c) = 1 /\
+  length (all_valid (nest_sem2 ex_outer_c ex_inner_c)) = 3.
+Proof. exact ex_nestable_c2. Qed.
 
 (** Outside the guard (derived factors, outer or other kinds of constraints, preamble trials, nested
     Nests, inner crossings with a partial last chunk - where the property fails on the real code,
